@@ -177,6 +177,7 @@ func runC10(c *Ctx) {
 	}
 	ruleEhloReplacesExt(c)
 	ruleStickyHandshake(c)
+	ruleHelloErrorNotMasked(c) // a refused EHLO inside TLS is an error, not "AUTH/STARTTLS not offered"
 
 	R.Rule("R-ctls-no-downgrade", "E3 + who-may-call", "initStartTLS reaches startTLS only when STARTTLS is advertised and fails otherwise; the dial helpers close and return nil on failure; sendMail only uses a client from DialTLS/DialStartTLS obtained without error", 8)
 	if f := c.A.Func("initStartTLS"); f != nil {
